@@ -154,6 +154,6 @@ Emit == pc = "routed" => PrintT(ToJson(Case))
 
 \* rows: both sides of 16/17 and multiples of 8; K: multiples of 4 / 16 / not; N likewise
 MCSizes == {<<1, 8, 8, 1>>, <<1, 3, 5, 2>>, <<8, 4, 8, 2>>, <<16, 16, 16, 2>>, <<17, 16, 8, 2>>, <<24, 32, 16, 2>>, <<24, 36, 5, 2>>,
-            <<4, 12, 3, 3>>, <<18, 16, 16, 3>>, <<2, 1, 1, 2>>, <<3, 64, 2, 2>>}
+            <<4, 12, 3, 3>>, <<18, 16, 16, 3>>, <<2, 1, 1, 2>>, <<3, 64, 2, 2>>, <<3, 1, 5, 2>>}
 MCSizesT == MCSizes \cup {<<64, 128, 32, 2>>, <<17, 512, 8, 2>>, <<8, 48, 64, 3>>, <<32, 20, 24, 3>>, <<1, 512, 16, 1>>, <<40, 8, 40, 2>>}
 =============================================================================
